@@ -103,6 +103,11 @@ func main() {
 					// for the single-step comparison with proj4js (C09) only
 					continue
 				}
+				if math.Abs(lat) == 90 {
+					// a pole has no longitude to come back to; the pole positions of the
+					// lattice are for the single-step comparison with proj4js (C09) only
+					continue
+				}
 				if g.name == "G1" {
 					lon -= d.Pm
 				}
